@@ -42,7 +42,7 @@ def entryDeleted (c : Cfg) (e : KV) : Bool :=
 /-- `NativeIterator.Merge`; `old = []` is "not in destination db" (`len(oldval) == 0`). -/
 def merge (c : Cfg) (e : KV) (old : Bytes) : Except Header.Err (Option Bytes) :=
   if old.length = 0 then
-    if isDeleted (maskedFlags e) ∧ e.ts < c.cutoff then .ok none
+    if entryDeleted c e ∧ e.ts < c.cutoff then .ok none
     else .ok (some (addHeader c e.val e.ts (maskedFlags e)))
   else
     match parse old with
